@@ -4,17 +4,22 @@ import json
 from pathlib import Path
 ROOT = Path(__file__).resolve().parent.parent
 props = [json.loads(l) for l in open(ROOT / "properties.jsonl")]
-TB = ("Trusted: Lean 4.33 kernel (axioms propext, Classical.choice, Quot.sound only; audited per theorem on every run); the translator "
-      "tools/fpextract.py + tools/fpsites.py (constants/tables and the arithmetic-flavour skeleton of each anchor file are re-read from /repo "
-      "on every run and the theorems are re-checked against them); the correspondence run fpdrv (real crate) vs fpmodel (compiled Lean model) "
-      "that ties the hand-written model functions to the code; rustc/std semantics of the modelled items (DESIGN.md 2.2).")
+TB = ("Trusted: Lean 4.33 kernel (axioms propext, Classical.choice, Quot.sound only; audited per theorem on every run, leanchecker in the "
+      "thorough tier); the translators tools/fpextract.py (constants/tables), tools/fpsites.py (token skeleton of every file the property's "
+      "operations execute, incl. called names and macro metavariables) and tools/fpkernels.py (expression-level translation of 90 functions "
+      "into Lean, each with a proved tie `Gen.K.f = Model.f`, vocabulary in lean/Fpdec/Gen/Rt.lean) — all re-run on /repo on every check; the "
+      "correspondence run fpdrv (real crate) vs fpmodel (compiled Lean model) that ties the remaining hand-written model functions to the "
+      "code; rustc/std semantics of the modelled items (DESIGN.md sections 2.2 and 3).")
 T = {}
 def t(pid, text, note, tech):
     T[pid] = (text, note, tech)
 
-COMMON = (" The hand-written model is tied to the current source on every run: constants/tables are re-extracted (Gen/Consts.lean), the "
-          "flavour skeleton of every anchor file is re-extracted and proved equal to the pinned one (Gen/Sites.lean, tie_sites_*), and "
-          "the real crate and the compiled model answer the same structured request stream (impl vs model = tie, impl vs spec = property).")
+COMMON = (" The model is tied to the current source on every run: constants/tables are re-extracted (Gen/Consts.lean); the token skeleton of "
+          "every file the property's operations execute is re-extracted and proved equal to the pinned one (Gen/Sites.lean, tie_sites_*); the "
+          "functions listed for this property in DESIGN.md 0.5 are re-translated from the Rust text into Lean (Gen/K*.lean) and proved equal to "
+          "the model functions the theorems are about (kernel_* theorems); and the real crate and the compiled model answer the same "
+          "structured request stream (impl vs model = tie, impl vs spec = property). A broken obligation or a model mismatch starts a search "
+          "over all build profiles for a concrete failing input.")
 TECH = "Lean 4 theorems (model ⊑ spec for all inputs, all profiles) + regenerated translator ties + differential correspondence"
 D = {
  "C01": "add_sub_spec / checked_add_sub_spec / add_sub_int_spec / checked_add_sub_int_spec / add_sub_value: for ALL operands of the domain + - checked_add checked_sub (Decimal and integer bodies) return exactly the aligned exact sum with max(p,q) digits or the overflow signal (panic / None), never another panic; no profile dependence (no plain arithmetic left).",
